@@ -32,6 +32,10 @@ func (k *kernel) isInt(e ast.Expr) bool {
 	case *ast.Ident:
 		v := k.lookup(e.Name)
 		return v != nil && (v.kind == vIntVar || v.kind == vIdxVec || (v.kind == vLoop && v.lean != "") || (v.kind == vLen && k.mode == mWhole))
+	case *ast.SelectorExpr:
+		if c := k.fieldVar(e); c != nil {
+			return c.kind == vIntVar
+		}
 	case *ast.UnaryExpr:
 		return (e.Op == token.SUB || e.Op == token.ADD) && k.isInt(e.X)
 	case *ast.BinaryExpr:
@@ -102,6 +106,11 @@ func (k *kernel) intExpr(e ast.Expr) (string, int) {
 		if v != nil && k.isInt(e) {
 			k.use(v)
 			return v.lean, pAtom
+		}
+	case *ast.SelectorExpr:
+		if c := k.fieldVar(e); c != nil && c.kind == vIntVar {
+			k.use(c)
+			return c.lean, pAtom
 		}
 	case *ast.UnaryExpr:
 		switch e.Op {
